@@ -20,6 +20,9 @@ impl Node {
         let _ = self.requestor.send(()).await;
     }
     async fn reply(&mut self) {}
+    fn boom(&mut self) {
+        panic!("verif: scripted model panic");
+    }
 }
 impl Model for Node {}
 
@@ -61,6 +64,7 @@ fn verif_run_c06_script() {
     let mut specs: Vec<Spec> = Vec::new();
     let mut parents: Vec<i64> = Vec::new();
     let mut deadlocks: Vec<usize> = Vec::new();
+    let mut panics: Vec<usize> = Vec::new();
     let mut threads = 1usize;
     for l in text.lines() {
         let t: Vec<&str> = l.split_whitespace().collect();
@@ -73,6 +77,7 @@ fn verif_run_c06_script() {
                 parents.push(t[2].parse().unwrap());
             }
             "deadlock" => deadlocks = t[1..].iter().map(|s| s.parse().unwrap()).collect(),
+            "panic" => panics = t[1..].iter().map(|s| s.parse().unwrap()).collect(),
             "threads" => threads = t[1].parse().unwrap(),
             _ => panic!("line"),
         }
@@ -114,6 +119,17 @@ fn verif_run_c06_script() {
                 println!("res Deadlock {}", s.join(" "));
             }
             Err(ExecutionError::MessageLoss(n)) => println!("res MessageLoss {}", n),
+            Err(ExecutionError::Terminated) => println!("res Terminated"),
+            Err(e) => println!("res Other {:?}", e),
+        }
+    }
+    for d in panics {
+        // silence the default panic message of the scripted panic
+        std::panic::set_hook(Box::new(|_| {}));
+        let r = simu.process_event(Node::boom, (), addrs[&d].clone());
+        match r {
+            Ok(()) => println!("res Ok"),
+            Err(ExecutionError::Panic { model, .. }) => println!("res Panic {}", model),
             Err(ExecutionError::Terminated) => println!("res Terminated"),
             Err(e) => println!("res Other {:?}", e),
         }
